@@ -6,6 +6,8 @@ def run(tier, seed):
         "C01", ["C01.ok"], tier, seed,
         nontrivial=lambda c, e, o: any(a[0] == "w" for acts, _ in o for a in acts),
         rule="non-trivial = distinct schedule in which the implementation wrote a response")
+    upload_handler_call_cases(res)
+    res.rule += " | plus upload handlers whose call ends before an awaitable exists (raises / returns a response object), with and without a chain, judged by Spec.C01.ok"
     # over real TLS (start_server in its own process, both backends): a multi-megabyte response to a reader that starts late
     # arrives whole and ends cleanly - no half-written response
     import livetls
@@ -14,3 +16,42 @@ def run(tier, seed):
     livetls.run_config_matrix(res, tier, "C01", seed)
     res.rule += " | live: start_server on both TLS backends, 5 MiB (thorough 12 MiB) static file read after a 1 s delay, a small file and a 51; `serve` under generated configurations (TOML sections, flags, environment; log levels, IP hashing, json logs, size limit, policies) with a fixed request battery"
     return res
+
+
+def upload_handler_call_cases(res):
+    """ "whatever the ... upload handler does (return, raise, or complete later)": an upload handler may fail, or return, before it
+    has produced an awaitable.  Outside the transition model (the model's upload handler always yields a task): the real protocol is
+    driven and the implementation's observations are judged by the Coq monitor, with a virtual completion event telling the monitor
+    that the handler's invocation is over (it raised)."""
+    import asyncio
+    line = b"titan://h.example/f.gmi;size=5;mime=text/gemini\r\n"
+    cases = []
+    for up_sync in ("raise", "value"):
+        for has_mw in (False, True):
+            for reads in ([line + b"hello"], [line, b"hello"], [line + b"he", b"llo"], [line + b"hello", b"trailing"]):
+                cfg = {"has_mw": has_mw, "has_upload": True, "peer_ip": "192.0.2.1", "fp": False, "hres": ("value", sg.GOOD), "up_sync": up_sync}
+                evs = [("read", [r]) for r in reads[:2 if len(reads) > 1 and reads[1] != b"trailing" else 1]]
+                if has_mw: evs.append(("done", 0, ("mw", True, None)))
+                if reads[-1] == b"trailing": evs.append(("read", [b"trailing"]))
+                cases.append((cfg, evs))
+    async def go():
+        out = []
+        for cfg, evs in cases:
+            urlimpl_calls = sd.urlimpl._calls; del urlimpl_calls[:]
+            obs, delay, calls, seen = await sd.run_schedule(cfg, evs)
+            out.append((obs, [[h, [] if m is None else [m]] for h, m in calls], seen))
+        return out
+    mc, meta = [], []
+    for (cfg, evs), (obs, tb, seen) in zip(cases, asyncio.run(go())):
+        up_ids = [a[1] for acts, _ in obs for a in acts if a[0] == "up"]
+        evs2, obs2 = list(evs), [[a, ar] for a, ar in obs]
+        for i in up_ids:       # the invocation is over: it raised
+            evs2.append(("done", i, ("raise", sd.SYNC_MSG))); obs2.append([[], obs2[-1][1] if obs2 else False])
+        mc.append(("C01.ok", enc([sd.enc_cfg(cfg, tb), [sd.enc_event(x) for x in evs2], obs2, seen])))
+        meta.append((cfg, evs, obs))
+    for (cfg, evs, obs), m in zip(meta, run_model_parallel(mc)):
+        res.evaluations += 1; res.count("upload-handler-call:" + cfg["up_sync"]); res.nontriv(("upload-handler-call", str(cfg), str(evs)))
+        if m != enc(True):
+            res.violations.append({"clause": "C01.ok (an upload handler that raises, or returns, before producing an awaitable)", "signature": "C01:upload-handler-call",
+                                   "case": dict(describe(cfg, evs), upload_handler="raises before returning an awaitable" if cfg["up_sync"] == "raise" else "returns a response object instead of an awaitable"),
+                                   "trace": pretty(dec(sd.enc_obs(obs)))})
